@@ -32,7 +32,10 @@ class ExceptionContext(StatusContext):
 
     @property
     def context_id(self) -> str:
-        return f"exception_{self.exception_type}"
+        # the invocation id makes every failure its own occurrence (like StatusContext /
+        # ResultContext); without it a second failure of the same type overwrote or was
+        # mistaken for the first one
+        return f"exception_{self.invocation_id}_{self.exception_type}"
 
     def _to_json(self, app: "Pynenc") -> dict[str, Any]:
         """
